@@ -745,6 +745,9 @@ class Interp:
                 return
             gen = e.generators[i]
             seq = self.ev(gen.iter, env2)
+            if i == len(e.generators) - 1 and not gen.ifs and isinstance(gen.target, ast.Name) and isinstance(e.elt, ast.Name) and e.elt.id == gen.target.id:
+                self.list_add(out, self.as_items(seq))      # [t for ... for t in E]: the concatenation of the E's (normal form of `acc.extend(E)` loops)
+                return
 
             def body(item):
                 self.assign(gen.target, item, env2)
